@@ -46,9 +46,30 @@ def all_fro(F):
         # a column given as four 1-D component vectors (how the Krylov solver holds its vectors)
         **({"normQsparse.1d": u.normQsparse(*[c[:, 0].copy() for c in comps])} if F.shape[1] == 1 else {}),
         "normQsparse.sparse": u.normQsparse(*[sparse.csr_matrix(c) for c in comps]),
+        # every scipy storage format holds the same matrix (seed C15o): CSC, COO, and DIA whose padding slots - positions
+        # of the band array that lie outside the matrix, which scipy ignores - are not zero (what spdiags builds)
+        "normQsparse.sparse-csc": u.normQsparse(*[sparse.csc_matrix(c) for c in comps]),
+        "normQsparse.sparse-coo": u.normQsparse(*[sparse.coo_matrix(c) for c in comps]),
+        "normQsparse.sparse-dia-padded": u.normQsparse(*[_dia_padded(c) for c in comps]),
         "tensor_frobenius_norm": t.tensor_frobenius_norm(Aq.reshape(Aq.shape + (1,))),
         "sqrt(sum tensor_entrywise_abs^2)": float(np.sqrt(np.sum(t.tensor_entrywise_abs(Aq) ** 2))),
     }
+
+
+def _dia_padded(c):
+    """c as a scipy DIA matrix whose band array carries non-zero values in the slots outside the matrix"""
+    d = sparse.dia_matrix(c)
+    if d.data.size == 0:
+        return d
+    data = np.array(d.data, dtype=np.float64)
+    m, n = d.shape
+    for r, off in enumerate(d.offsets):
+        for jc in range(data.shape[1]):
+            if not (0 <= jc - off < m and jc < n):
+                data[r, jc] = 7.0
+    out = sparse.dia_matrix((data, d.offsets), shape=d.shape)
+    assert np.array_equal(out.toarray(), np.asarray(c)), "harness: padded DIA does not hold the same matrix"
+    return out
 
 
 def n1(F):
